@@ -134,6 +134,10 @@ pub struct Signature {
 
 impl Signature {
     pub(crate) fn from_bytes_verbose(bytes: &[u8], _hash_iterations: u32) -> Result<Self, Error> {
+        // ArrayVec keeps its length in a u16: longer inputs cannot be stored (try_from would panic)
+        if bytes.len() > u16::MAX as usize {
+            return Err(Error::new());
+        }
         let bytes = ArrayVec::try_from(bytes).map_err(|_| Error::new())?;
 
         Ok(Self {
